@@ -200,8 +200,9 @@ theorem throwPy_eq {α : Type} (e : Exc) : (throw e : Py α) = Except.error e :=
 theorem unescapeString_nil : unescapeString [] = [] := by decide
 
 /-- everything after the value split position is known -/
-theorem parts_tail (st name : Str) (ns : Option Nat) (vsplit : Nat) (strict : Bool) :
-    remap [Exc.valueError]
+theorem parts_tail (cs : List Exc) (hcs : cs.contains Exc.valueError = true)
+    (st name : Str) (ns : Option Nat) (vsplit : Nat) (strict : Bool) :
+    remap cs
       (if (falsy ns || some ((optInt ns).getD 0 + 1) == some (vsplit : Int)) = true then throw Exc.valueError
        else
         (intOfOpt (optInt ns) >>= fun v_1 =>
@@ -230,7 +231,7 @@ theorem parts_tail (st name : Str) (ns : Option Nat) (vsplit : Nat) (strict : Bo
     · right; omega
   rw [hcond]
   by_cases hc : (falsy ns || ns.getD 0 + 1 == vsplit) = true
-  · simp [hc, remap, throwPy_eq]
+  · simp [hc, remap, throwPy_eq, hcs]
   · simp only [hc, Bool.false_eq_true, if_false]
     cases ns with
     | none => simp [falsy] at hc
@@ -240,7 +241,7 @@ theorem parts_tail (st name : Str) (ns : Option Nat) (vsplit : Nat) (strict : Bo
       have eo : optInt (some k) = some (k : Int) := rfl
       simp only [bind, Except.bind, eo, intOfOpt, e1, e2, pySliceO_nat, pySliceFromI_nat, Option.getD_some, paramsFromIcalP]
       cases paramsFromIcal (List.take (vsplit - (k + 1)) (List.drop (k + 1) st)) strict with
-      | none => simp [remap]
+      | none => simp [remap, hcs]
       | some ps => simp [remap, pure, Except.pure, paramsUnescapeP]
 
 theorem parts_eq (line : Str) (strict : Bool) :
@@ -253,6 +254,12 @@ theorem parts_eq (line : Str) (strict : Bool) :
   have en : optInt none = (none : Option Int) := rfl
   rw [e0, en] at h1 h2 h3
   simp only [Gen.BodiesLine.parts, ICal.parts, escape_string_eq, unescape_string_eq, parts_loop_pure, bind, Except.bind]
+  -- the exception classes that `except ValueError` catches, as the generated code lists them
+  first
+    | (rw [show (valueErrors : List Exc) = id valueErrors from rfl]; generalize hL : id valueErrors = cs)
+    | (rw [show ([Exc.valueError] : List Exc) = id [Exc.valueError] from rfl]; generalize hL : id [Exc.valueError] = cs)
+  have hcs : cs.contains Exc.valueError = true := by subst hL; decide
+  clear hL
   generalize hst : escapeString line = st at *
   generalize hr : parts_scan_loop1 0 none none none false st = r at *
   obtain ⟨r1, r2, r3, r4⟩ := r
@@ -265,7 +272,7 @@ theorem parts_eq (line : Str) (strict : Bool) :
   clear hr hsc e0 en hst
   generalize hname : unescapeString (match ns with | none => st | some k => List.take k st) = name
   by_cases hemp : name.isEmpty = true
-  · simp [hemp, remap, throwPy_eq]
+  · simp [hemp, remap, throwPy_eq, hcs]
   · have hne : st ≠ [] := by
       intro e; subst e
       have : name = [] := by rw [← hname]; cases ns <;> simp [unescapeString_nil]
@@ -278,16 +285,16 @@ theorem parts_eq (line : Str) (strict : Bool) :
       · simp only [hf, if_true, getBound, pure, Except.pure]
         have ev : (((0 + st.length - 1 : Nat)) : Int) + 1 = (st.length : Int) := by omega
         simp only [ev]
-        have := parts_tail st name ns st.length strict
+        have := parts_tail cs hcs st name ns st.length strict
         simp only [bind, Except.bind] at this
         exact this
       · simp only [hf, if_false, Bool.false_eq_true, pure, Except.pure]
         cases vs with
         | none => simp [falsy] at hf
         | some k =>
-          have := parts_tail st name ns k strict
+          have := parts_tail cs hcs st name ns k strict
           simp only [bind, Except.bind] at this
           exact this
-    · simp [validateTokenP, hvt, remap]
+    · simp [validateTokenP, hvt, remap, hcs]
 
 end ICal.Bodies
